@@ -16,8 +16,9 @@
 (* o follow exactly the connections (p, o, _) in declaration order; a Gen on     *)
 (* the request side ends the request walk (nothing else runs on the request     *)
 (* side) and the response walk continues from the targets of that Gen's         *)
-(* response-side connections; system flows of quotas run before the user flow   *)
-(* on requests and after it, in reverse order, on responses.  The outputs are   *)
+(* response-side connections; the system flows of the quotas whose filter        *)
+(* matches run before the user flow on requests and after it, in reverse order, *)
+(* on responses.  The outputs are                                              *)
 (* the ones the processors really produced (they are part of the observation),  *)
 (* so the property does not depend on what a processor decides, only on what    *)
 (* the engine does with the decision.  A transaction that ended with an error    *)
@@ -223,9 +224,27 @@ SysVerdict(seq, sysreq) ==
             THEN "system-flows-not-reversed-on-response"
        ELSE "ok"
 
+\* the system flows that have to run: a quota whose filter is the transaction's URL (or the host wildcard) contributes
+\* <id>_QuotaProcessorInc in front of the user flow on the request side and, for a concurrency quota,
+\* <id>_QuotaProcessorDec behind it on the response side
+HostWildcard == "h.test/*"
+Matching(cfg, url) == SelectSeq(cfg.quotas, LAMBDA q : q.url = url \/ q.url = HostWildcard)
+Ran(seq, dir, key) == \E i \in 1..Len(seq) : seq[i].dir = dir /\ seq[i].key = key /\ IsSys(seq[i])
+SysComplete(cfg, fname, dir, seq, outcome) ==
+    IF outcome # "ok" \/ ~HasFlow(cfg, fname) THEN "ok"
+    ELSE LET qs == Matching(cfg, FlowOf(cfg, fname).url)
+             answered == \E i \in 1..Len(seq) : ~IsSys(seq[i]) /\ seq[i].dir = "req" /\ KindAny(cfg, seq[i].key) = "Gen"
+         IN IF dir = "req" /\ \E i \in 1..Len(qs) : ~Ran(seq, "req", qs[i].id \o "_QuotaProcessorInc")
+            THEN "system-flow-did-not-run-on-request"
+            ELSE IF (dir = "res" \/ answered) /\ \E i \in 1..Len(qs) : qs[i].kind = "conc" /\ ~Ran(seq, "res", qs[i].id \o "_QuotaProcessorDec")
+            THEN "system-flow-did-not-run-on-response"
+            ELSE "ok"
+
 TxVerdict(cfg, fname, dir, seq, sysreq, outcome) ==
-    LET s == SysVerdict(seq, sysreq) IN
+    LET s == SysVerdict(seq, sysreq)
+        c == SysComplete(cfg, fname, dir, seq, outcome) IN
     IF s # "ok" THEN s
+    ELSE IF c # "ok" THEN c
     ELSE IF ~WellFormed(cfg, fname) THEN "ok"
     ELSE UserVerdict(cfg, fname, dir, UserPart(seq), outcome)
 
